@@ -108,6 +108,17 @@ PartKMatchesP(ps, classes) == LET ts == TermsOf(ps, classes) IN
    /\ NicvK(ts) = Nicv(ps, classes)
    /\ SnrK(ts, Len(classes)) = Snr(ps, classes)
 
+
+(* ------------------------------------------ Welch t (C09) ------------------------------------------ *)
+(* xs, ys: sequences of integers (one sample column of the two trace sets); population variances.       *)
+(* certificate <<d, q>>: t = d / sqrt(q) with d = mean1 - mean2 and q = var1/n1 + var2/n2 (rationals)    *)
+SeqSum(xs) == SumTo(LAMBDA i : xs[i], Len(xs))
+SeqSq(xs) == SumTo(LAMBDA i : xs[i] * xs[i], Len(xs))
+PopVar(xs) == Rat(Len(xs) * SeqSq(xs) - SeqSum(xs) * SeqSum(xs), Len(xs) * Len(xs))
+PopVarCentred(xs) == RDiv(RSumTo(LAMBDA i : RSq(RSub(RInt(xs[i]), Rat(SeqSum(xs), Len(xs)))), Len(xs)), RInt(Len(xs)))
+WelchCert(xs, ys) == <<RSub(Rat(SeqSum(xs), Len(xs)), Rat(SeqSum(ys), Len(ys))),
+                       RAdd(RDiv(PopVar(xs), RInt(Len(xs))), RDiv(PopVar(ys), RInt(Len(ys))))>>
+
 \* results do not depend on empty declared classes, on the order of the class list, or on undeclared observations
 Finite(r) == IsFin(r)
 =============================================================================
